@@ -730,3 +730,47 @@ package cose
 //@         && decopts(decModeWithTagsForbidden).TimeTag == 0 && decopts(decModeWithTagsForbidden).MapKeyByteString == 0 && decopts(decModeWithTagsForbidden).ExtraReturnErrors == 0
 //@         && decopts(decModeWithTagsForbidden).UTF8 == 0 && decopts(decModeWithTagsForbidden).DefaultMapType == nil
 //@   modifies frame: anything
+
+// ===================================================================
+// sign.go: encoding / decoding of COSE_Signature and COSE_Sign  (C08, C09, C11, C19, C20)
+// ===================================================================
+
+//@ spec SigArray(h Headers, sig []byte) CV = arr(cv_raw(ProtBytes(h)), cv_raw(UnprotBytes(h)), cv_bstr(bytes(sig)))
+
+//@ func (*Signature).MarshalCBOR
+//@   ensures fun [C08, C09]: err == nil ==> s != nil && bytes(result) == enc(SigArray(s.Headers, s.Signature)) && fresh(result) && len(result) > 0
+//@   ensures refuses_empty [C11, C20]: err == nil ==> s != nil && len(s.Signature) > 0
+//@   ensures cross [C13]: err == nil ==> CrossIV(s.Headers.Protected, s.Headers.Unprotected)
+//@   ensures err_nil [C20]: err != nil ==> result == nil
+//@   modifies frame [C18]: nothing
+
+//@ func (*Countersignature).MarshalCBOR
+//@   ensures fun [C08, C09]: err == nil ==> s != nil && bytes(result) == enc(SigArray(s.Headers, s.Signature)) && fresh(result) && len(result) > 0
+//@   ensures refuses_empty [C20]: err == nil ==> s != nil && len(s.Signature) > 0
+//@   ensures err_nil [C20]: err != nil ==> result == nil
+//@   modifies frame [C18]: nothing
+
+//@ func (*SignMessage).MarshalCBOR
+//@   ensures nonempty [C11, C20]: err == nil ==> m != nil && len(m.Signatures) > 0
+//@         && (forall i Int :: 0 <= i && i < len(m.Signatures) ==> m.Signatures[i] != nil && len(m.Signatures[i].Signature) > 0)
+//@   ensures err_nil [C20]: err != nil ==> result == nil
+//@   ensures out [C08]: err == nil ==> fresh(result) && len(result) > 0
+//@   modifies frame [C18]: nothing
+//@   loop 1 invariant bounds: 0 <= idx && idx <= len(m.Signatures) && len(signatures) == idx && cap(signatures) >= len(m.Signatures) && fresh(signatures)
+//@   loop 1 invariant prefix_nonempty [C11, C20]: forall j Int :: 0 <= j && j < idx ==> m.Signatures[j] != nil && len(m.Signatures[j].Signature) > 0
+
+//@ func (*SignMessage).UnmarshalCBOR
+//@   ensures accept [C05, C09, C11]: err == nil ==> m != nil && len(data) >= 3 && bat(bytes(data), 0) == 216 && bat(bytes(data), 1) == 98 && bat(bytes(data), 2) == 132
+//@         && dec_shape_err(decModeWithTagsForbidden, bytes(data[2:]), "github.com/veraison/go-cose.signMessage") == nil
+//@         && bytes(m.Headers.RawProtected) == dec_elem(bytes(data[2:]), 0) && bytes(m.Headers.RawUnprotected) == dec_elem(bytes(data[2:]), 1)
+//@         && headersDecoded(m.Headers)
+//@         && len(m.Signatures) > 0 && len(m.Signatures) == dec_count(bytes(data[2:]), 3)
+//@   ensures sigs [C05, C09, C11]: err == nil ==> (forall i Int :: 0 <= i && i < len(m.Signatures) ==> m.Signatures[i] != nil && len(m.Signatures[i].Signature) > 0 && fresh(m.Signatures[i]))
+//@   ensures no_alias [C19]: err == nil ==> fresh(m.Headers.RawProtected) && fresh(m.Headers.RawUnprotected) && (m.Payload != nil ==> fresh(m.Payload)) && fresh(m.Signatures)
+//@         && fresh(m.Headers.Protected) && fresh(m.Headers.Unprotected)
+//@   ensures err_frame [C19]: err != nil && m != nil ==> *m == old(*m) && (forall i Int :: 0 <= i && i < old(len(m.Signatures)) ==> m.Signatures[i] == old(m.Signatures[i]))
+//@   modifies frame [C18, C19]: *m
+//@   loop 1 invariant bounds: 0 <= idx && idx <= len(raw.Signatures) && len(signatures) == idx && cap(signatures) >= len(raw.Signatures) && fresh(signatures)
+//@   loop 1 invariant prefix [C11]: forall j Int :: 0 <= j && j < idx ==> signatures[j] != nil && len(signatures[j].Signature) > 0 && fresh(signatures[j])
+//@   loop 1 invariant dst_kept [C19]: *m == old(*m)
+//@   loop 1 invariant locals_kept: raw == entry(raw) && (forall j Int :: 0 <= j && j < len(raw.Signatures) ==> raw.Signatures[j] == entry(raw.Signatures[j]))
